@@ -31,7 +31,9 @@ RULE = (
     "and mutated inputs, the envelope CLI) and from a scenario generator that builds an evidence directory (VMDK descriptor + "
     "extents + parent, differencing VHDX + parent, Parallels .hdd, envelope + keystore, vmtar) and runs a random sequence of "
     "open / read / list / decrypt operations over it (incl. payloads larger than one 4 MiB decrypt chunk, the CLI with -o naming a "
-    "file, an existing file, a separate directory or the evidence directory, envelopes whose names do not end in '.ve'). Every "
+    "file, an existing file, a relative path from another working directory, a separate directory or the evidence directory, envelopes "
+    "whose names do not end in '.ve'; Hyper-V file objects opened as streams from read-only and read-write handles; a VMDK descriptor "
+    "given as a read-write handle, alone and in a list with paths). Every "
     "workload runs in two process variants: default environment and DISSECT_LOG_VMDK/VHDX=DEBUG. Monitors: (1) audit events raised while a dissect.hypervisor frame is on "
     "the stack — open with a write-capable mode or flag, writable mmap, remove/rename/truncate/mkdir/rmdir/chmod/utime/link/"
     "symlink, shutil.*, tempfile.* — are violations, except the path given to the CLI as --output; (2) any write/writelines/"
@@ -68,7 +70,8 @@ def strategy_(draw, tier):
         ops = draw(st.lists(st.sampled_from(["vmdk-open", "vmdk-read", "vmdk-flat-big", "vhdx-open", "vhdx-read", "hdd-open", "hdd-read", "hdd-guid",
                                              "envelope-decrypt", "cli", "cli-existing-output", "cli-wrong-key", "vmtar-list", "vmtar-extract", "keystore",
                                              "vmtar-modes", "vhdx-abs-parent", "hyperv-dirty", "rw-handles", "envelope-decrypt-big", "cli-big",
-                                             "cli-output-dir", "cli-output-evidence-dir"]),
+                                             "cli-output-dir", "cli-output-evidence-dir", "cli-relative-output", "hyperv-fileobject",
+                                             "vmdk-rw-descriptor-handle"]),
                             min_size=2, max_size=10))
         return {"workload": w, "ops": ops, "n": draw(st.integers(0, 1 << 20))}
     mod = importlib.import_module(f"hv.props.{w.lower()}")
@@ -206,9 +209,19 @@ def build_evidence(d, n):
     struct.pack_into("<I", hv, replay + 8, 2)
     for i in range(2):
         struct.pack_into("<QIIIII", hv, replay + 34 + 28 * i, 0x3000 + 0x100 * i, 16, 0, 0, 0, 0)
-    os.makedirs(os.path.join(d, "hyperv"))
+    os.makedirs(os.path.join(d, "hyperv"), exist_ok=True)
     with open(os.path.join(d, "hyperv", "vm.vmcx"), "wb") as f:
         f.write(bytes(hv))
+    # a Hyper-V file holding a value in a separate file object (>= 0x800 bytes)
+    from hv.builders import hyperv as bhv_
+
+    os.makedirs(os.path.join(d, "hyperv"), exist_ok=True)
+
+    fo_spec = dict(c12.HV_SPEC, entries=list(c12.HV_SPEC["entries"]) + [
+        {"id": 3, "parent": 0, "key": "blob", "type": "array", "value": bytes(range(256)).hex() * 10, "table": 2, "fo": True}])
+    with open(os.path.join(d, "hyperv", "state.vmrs"), "wb") as f:
+        f.write(bhv_.build(fo_spec)[0])
+    info["hyperv-fo"] = os.path.join(d, "hyperv", "state.vmrs")
     info["hyperv-dirty"] = os.path.join(d, "hyperv", "vm.vmcx")
     info["hyperv-dirty-bytes"] = bytes(hv)
     # plain single images for caller-supplied (writable) handles
@@ -286,6 +299,43 @@ def run_scenario(spec, out):
                         with open(allowed, "rb") as f:
                             if f.read() != info["payload_big"]:
                                 raise AssertionError("CLI output differs from the payload (> 4 MiB)")
+                    elif op == "cli-relative-output":
+                        # a relative -o is relative to the working directory, wherever the envelope lives
+                        here = os.getcwd()
+                        os.chdir(outdir)
+                        try:
+                            for rel in ("out.bin", "local.tgz"):
+                                sys.argv = ["envelope-decrypt", info["envelope"], "-ks", info["keystore"], "-o", rel]
+                                tool.main()
+                                with open(os.path.join(outdir, rel), "rb") as f:
+                                    if f.read() != info["payload"]:
+                                        raise AssertionError("CLI output (relative -o) differs from the payload")
+                            os.remove(os.path.join(outdir, "local.tgz"))
+                        finally:
+                            sys.argv = old_argv
+                            os.chdir(here)
+                    elif op == "hyperv-fileobject":
+                        from dissect.hypervisor.descriptor.hyperv import HyperVFile
+
+                        for mode in ("rb", "r+b"):
+                            with open(info["hyperv-fo"], mode) as fh:
+                                hf = HyperVFile(fh)
+                                hf.as_dict()
+                                for fo in list(hf.file_objects.values()):
+                                    st_ = fo.open()
+                                    st_.read(100)
+                                    if st_ is not fh and hasattr(st_, "close") and getattr(st_, "_fh", fh) is not fh:
+                                        st_.close()
+                    elif op == "vmdk-rw-descriptor-handle":
+                        # the descriptor comes as a handle the caller opened read-write; what the library opens itself stays read-only
+                        with open(info["vmdk"], "r+b") as fh:
+                            v = VMDK(fh)
+                            opened.append(v)
+                            v.read(4096)
+                        with open(os.path.join(os.path.dirname(info["vmdk"]), "delta-s000.vmdk"), "r+b") as fh:
+                            v = VMDK([fh, Path(os.path.dirname(info["vmdk"])) / "delta-s001.vmdk"])
+                            opened.append(v)
+                            v.read(4096)
                     elif op in ("cli-output-dir", "cli-output-evidence-dir"):
                         # -o names a directory: an error today; whatever a tool does with it, it must stay inside that directory
                         # and must not touch the evidence (here the envelope lives in the directory named, or elsewhere)
